@@ -1319,6 +1319,11 @@ def run_producer(env, rng, n):
         calls = [tuple(int(v) for v in q.split(":")) for q in t[-1][len("calls="):].split(";") if q and q != "-"] if t[-1].startswith("calls=") else []
         c["calls"] = calls
         ap = c["ap"]
+        try:        # parameters as applied WITH the producer registered (maxNbSeq uses divider 3 then)
+            ap = parse_applied(t[2])
+            c["ap"] = ap
+        except (IndexError, ValueError):
+            pass
         # history at the start of each block from R's trace (accepted frames only)
         reps = None
         m = mres.get(c["id"])
